@@ -180,6 +180,106 @@ def selftest_binding(hists):
         del _TYPES["harness.Broken"]
 
 
+# ---------------------------------------------------------------------------------- T direction
+def record_case(arg):
+    """Random long history on one real type, recorded as trace events (one per operation)."""
+    tname, tid, seed, nops = arg
+    from vc2_conformance.fixeddict import FixedDictKeyError
+
+    T = get_type(tname)
+    rnd = random.Random(seed)
+    names = list(T.entry_objs.keys())
+    pool = names + ["bogus_key", "_verif_undeclared", "x" + names[0]]
+    ev = [{"tid": tid, "ev": "begin", "type": tname, "decl": names}]
+    obj = T()
+    for _ in range(nops):
+        op = rnd.choice(["construct", "setitem", "setitem", "setdefault", "update_dict", "update_pairs", "update_kwargs", "ior", "ior", "copy", "pickle"])
+        v = rnd.randrange(3)
+        o = {"op": op, "v": v}
+        if op in ("setitem", "setdefault"):
+            o["k"] = rnd.choice(pool)
+        elif op not in ("copy", "pickle"):
+            n = rnd.choice([0, 1, 1, 2, 3])
+            o["ks"] = rnd.sample(pool if rnd.random() < 0.4 else names, min(n, len(names)))
+        exc = "none"
+        eq = True
+        try:
+            if op == "construct":
+                items = [(k, v) for k in o["ks"]]
+                obj = rnd.choice([lambda: T(dict(items)), lambda: T(items), lambda: T(**dict(items))])()
+            elif op == "setitem":
+                obj[o["k"]] = v
+            elif op == "setdefault":
+                obj.setdefault(o["k"], v)
+            elif op == "update_dict":
+                obj.update(dict((k, v) for k in o["ks"]))
+            elif op == "update_pairs":
+                obj.update([(k, v) for k in o["ks"]])
+            elif op == "update_kwargs":
+                obj.update(**dict((k, v) for k in o["ks"]))
+            elif op == "ior":
+                obj = operator.ior(obj, dict((k, v) for k in o["ks"]))
+            elif op == "copy":
+                c = rnd.choice([lambda: obj.copy(), lambda: copy.copy(obj), lambda: copy.deepcopy(obj)])()
+                eq = type(c) is type(obj) and c == obj and dict(c) == dict(obj)
+                obj = c
+            elif op == "pickle":
+                c = pickle.loads(pickle.dumps(obj, rnd.randrange(pickle.HIGHEST_PROTOCOL + 1)))
+                eq = type(c) is type(obj) and c == obj and dict(c) == dict(obj)
+                obj = c
+        except FixedDictKeyError:
+            exc = "keyerror"
+        except Exception as e:  # noqa
+            exc = "other:" + type(e).__name__
+        keys = [k for k in obj.keys()]
+        ev.append(
+            {
+                "tid": tid,
+                "ev": "op",
+                "o": o,
+                "exc": exc,
+                "keys": [str(k) for k in keys],
+                "vals": [obj[k] if isinstance(obj[k], int) else -1 for k in keys],
+                "typ": "fixed" if type(obj) is T else "plain",
+                "eq": eq,
+            }
+        )
+    return ev
+
+
+def trace_direction(ctx, names):
+    from .. import trace
+
+    per_type = ctx.pick(12, 150)
+    nops = ctx.pick(25, 40)
+    jobs = []
+    tid = 0
+    for n in names:
+        for j in range(per_type):
+            tid += 1
+            jobs.append((n, tid, ctx.seed * 1000003 + tid, nops))
+    evs = common.pmap(record_case, jobs)
+    records = [e for ev in evs for e in ev]
+    bad, res = trace.validate("FixedDictTrace", records)
+    ctx.add_tlc(res, "trace validation (FixedDictTrace)")
+    by_tid = {j[1]: (j, ev) for j, ev in zip(jobs, evs)}
+    dis = 0
+    for b in bad:
+        if b["alarm"]:
+            j, ev = by_tid[b["tid"]]
+            rec = records[b["line"] - 1]
+            ctx.violation("C27|trace|%s|%s" % (b["clause"], rec["o"]["op"]), "%s: %s -> exc=%s keys=%s typ=%s (clause %s)" % (j[0], rec["o"], rec["exc"], rec["keys"], rec["typ"], b["clause"]), {"trace_job": list(j), "line": b["line"]})
+        else:
+            dis += 1
+    # binding self-test: corrupt one recorded field -> the trace spec must reject exactly that line
+    probe = [dict(r) for r in evs[0]]
+    probe[-1] = dict(probe[-1], keys=probe[-1]["keys"] + ["bogus_key"], vals=probe[-1]["vals"] + [0])
+    pbad, _ = trace.validate("FixedDictTrace", probe)
+    if not any(b["alarm"] and b["line"] == len(probe) and b["clause"] == "OnlyDeclared" for b in pbad):
+        raise RuntimeError("trace binding self-test failed: corrupted keys field accepted")
+    return len(jobs), len(records), dis, records[1]
+
+
 def run(ctx):
     res = tlc.run("FixedDict", "mc/FixedDict.cfg", dump=True)
     ctx.add_tlc(res, "exhaustive", {"Declared": 2, "Undeclared": 2, "Vals": 2, "MaxLen": 3, "MaxArg": 2})
@@ -205,12 +305,17 @@ def run(ctx):
         for sig, what in r["violations"]:
             nviol += 1
             ctx.violation(sig, what, {"type": n, "hist": h})
+    ntr, nev, tdis, tsample = trace_direction(ctx, names)
     hit = selftest_binding(hists)
     if hit == 0:
         raise RuntimeError("binding self-test failed: a setdefault that bypasses the key check was not detected")
     ctx.coverage.update(
         {
-            "traces_validated_against_impl": len(jobs),
+            "traces_validated_against_impl": len(jobs) + ntr,
+            "recorded_traces": ntr,
+            "recorded_events": nev,
+            "trace_spec_disagreements": tdis,
+            "trace_binding_selftest": "corrupting the recorded key list of one event is rejected with clause OnlyDeclared",
             "evaluations": len(jobs),
             "distinct_nontrivial": len(set(repr(h) for h in hists if len(h) >= 2)) * len(names),
             "rule": "one shortest history per (abstract state, operation) transition of FixedDict.tla, replayed on each of the library's fixeddict types; non-trivial = history of >= 2 operations",
@@ -220,7 +325,7 @@ def run(ctx):
             "steps_executed": steps,
             "spec_disagreements": dis,
             "binding_selftest": {"mutant": "setdefault without key check (in-process subclass)", "histories_flagging_it": hit},
-            "samples": [{"type": jobs[i][0], "hist": jobs[i][1]} for i in (0, len(jobs) // 2, len(jobs) - 1)],
+            "samples": [{"type": jobs[i][0], "hist": jobs[i][1]} for i in (0, len(jobs) // 2, len(jobs) - 1)] + [tsample],
         }
     )
     ctx.assumptions += [
@@ -231,4 +336,10 @@ def run(ctx):
 
 def replay(case):
     get_type("harness.Probe")
+    if "trace_job" in case:
+        from .. import trace
+
+        ev = record_case(tuple(case["trace_job"]))
+        bad, _ = trace.validate("FixedDictTrace", ev)
+        return {"violations": [b for b in bad if b["alarm"]], "events": ev[: case["line"] + 1][-3:]}
     return exec_case((case["type"], case["hist"]))
